@@ -490,3 +490,18 @@ Proof.
   destruct (prun_live c k0 es {| selected := false; opens := []; ctr := ctr0 |}) as (A & B & C). cbn zeta in *.
   rewrite adoptions_app, refusals_app, live_outs_app, A, B, C. repeat split.
 Qed.
+
+(** * Every request is answered exactly once, by its own response type, on the same system bytes *)
+Theorem requests_answered c s f st : ctrl_frame f st -> st = 1 \/ st = 3 \/ st = 5 ->
+  exists s' sid status,
+    respond c s f = (s', [Send (ctrl sid 0 status (st + 1) (f_sys f))], Keep) /\
+    opens s' = opens s /\ ctr s' = ctr s.
+Proof.
+  intros Hc [->|[->| ->]]; destruct (selected s) eqn:Hsel.
+  - exists s, (f_sid f), 1. rewrite (table_select_again c s f Hc Hsel). auto.
+  - exists (set_selected s true), (f_sid f), 0. rewrite (table_select_first c s f Hc Hsel). auto.
+  - exists (set_selected s false), (f_sid f), 0. rewrite (table_deselect_selected c s f Hc Hsel). auto.
+  - exists s, (f_sid f), 1. rewrite (table_deselect_not_selected c s f Hc Hsel). auto.
+  - exists s, 65535, 0. rewrite (table_linktest c s f Hc). auto.
+  - exists s, 65535, 0. rewrite (table_linktest c s f Hc). auto.
+Qed.
